@@ -316,7 +316,10 @@ def run(rep):
         "IEEE binary64 arithmetic satisfies the laws `Lawful` (neg/floor/ceil/frexp of a finite value are finite, "
         "integers of 64-bit types convert to finite doubles, finite/len stays finite): trusted, exercised by the grid",
         "Rust's str::parse::<f64> is correctly rounded (isNearestEven) and Display for f64 prints the shortest "
-        "round-trip digits (isShortestRT): VALIDATED by this check against Python's Fraction->float and repr, not proved",
+        "round-trip digits (isShortestRT): VALIDATED by this check (against the model's roundNE, which is proved to be "
+        "the unique nearest-even rounding, and independently against Python's Fraction->float and repr), not proved",
+        "roundDec's shortcuts for decimal exponents beyond +-400 (overflow / zero without building the power of ten) "
+        "are justified on paper and validated against Python (C06_roundDec_correct_full is stated, not proved)",
         "libm functions (pow exp log sin ...) are compared by outcome class only (finite / NumberOverflow / NumberNan)",
         "numbers injected by the embedding host (Value::number, native functions) are outside the property",
         "a literal whose explicit exponent does not fit i64 is rejected by the lexer (ExpOverflow) whatever its value",
@@ -324,7 +327,7 @@ def run(rep):
     ]
     run_extractor(rep)
     vlib.prelude(rep)
-    n_scale = 1 if not thorough else 12
+    n_scale = 1 if not thorough else 50
 
     lines = []   # (line, meta)
 
@@ -772,6 +775,12 @@ def run(rep):
                 "std.round(1e308 * 1.5)", "std.flatMap(function(a, b) a + b, [1, 2])", "std.map(std.pow, [1])",
                 "-(-1.7976931348623157e308) * 2", "std.deg2rad(1e308) * 1e3"]:
         gl.append(("expr", src.replace("%%", "%")))
+    # comparisons never see a NaN (partial_cmp().unwrap() in State::CompareValue)
+    for _ in range(150 * n_scale):
+        a, b = jnum(pick(rng, 0.7)), jnum(pick(rng, 0.7))
+        gl.append(("cmp", rng.choice(["%s < %s", "%s <= %s", "%s > %s", "%s >= %s", "%s == %s", "std.__compare(%s, %s)",
+                                      "std.sort([%s, %s, 0, -0.0])", "std.max(%s, %s)", "std.minArray([%s, %s])",
+                                      "std.set([%s, %s])", "std.setMember(%s, [%s])"]) % (a, b)))
     gen_lines = ["num eval " + vlib.hx(src) for _, src in gl]
     gen_out = vlib.impl(gen_lines)
     for (k, src), line, out in zip(gl, gen_lines, gen_out):
